@@ -112,12 +112,12 @@ def prepare_sources(unit, wdir):
     return sdir, shas, reports
 
 
-def build_goto(unit, prop, cfg, wdir, sdir, extra_defs):
+def build_goto(unit, prop, cfg, wdir, sdir, extra_defs, tier="quick"):
     harness = os.path.join(VERIF, "props", prop, unit["harness"])
     a = os.path.join(wdir, "a.gb")
     cmd = ["goto-cc", "--function", unit["entry"], "-I", sdir, "-I", VERIF, "-I", os.path.join(VERIF, "props", prop),
            "-I", os.path.join(REPO, "src"), "-I", cfg["dir"]] + cfg["defines"] + [GUARD, "-D__NO_CTYPE"] + \
-          ["-D" + d for d in unit.get("defines", [])] + ["-D" + d for d in extra_defs] + [harness, "-o", a]
+          ["-D" + d for d in unit.get("defines", []) + unit.get("defines_" + tier, [])] + ["-D" + d for d in extra_defs] + [harness, "-o", a]
     rc, out, _ = run(cmd, 300)
     if rc != 0:
         raise Undecided("goto-cc failed: " + out[-1500:])
@@ -261,7 +261,9 @@ def run_unit(unit, prop, tier, cfg, rundir, extra_defs=(), tag=""):
         sdir, shas, reports = prepare_sources(unit, wdir)
         res["source_sha256"] = shas
         res["loops"] = reports
-        gb, cc_cmd, gi_cmd = build_goto(unit, prop, cfg, wdir, sdir, list(extra_defs))
+        gb, cc_cmd, gi_cmd = build_goto(unit, prop, cfg, wdir, sdir, list(extra_defs), tier)
+        if isinstance(unit.get("bound"), dict):
+            res["bound"] = unit["bound"].get(tier)
         flags = list(unit.get("checks", BASE_CHECKS)) + unit.get("cbmc_flags", [])
         if tier == "thorough":
             flags += unit.get("cbmc_flags_thorough", [])
